@@ -23,13 +23,21 @@ type worker struct {
 }
 
 type tailBuf struct {
-	mu  sync.Mutex
-	buf []byte
+	mu   sync.Mutex
+	head []byte
+	buf  []byte
 }
 
 func (t *tailBuf) Write(p []byte) (int, error) {
 	t.mu.Lock()
 	defer t.mu.Unlock()
+	if len(t.head) < 4096 {
+		n := 4096 - len(t.head)
+		if n > len(p) {
+			n = len(p)
+		}
+		t.head = append(t.head, p[:n]...)
+	}
 	t.buf = append(t.buf, p...)
 	if len(t.buf) > 1<<16 {
 		t.buf = t.buf[len(t.buf)-(1<<16):]
@@ -40,6 +48,9 @@ func (t *tailBuf) Write(p []byte) (int, error) {
 func (t *tailBuf) String() string {
 	t.mu.Lock()
 	defer t.mu.Unlock()
+	if len(t.buf) > len(t.head) && len(t.buf) >= 1<<16 {
+		return string(t.head) + "\n[...]\n" + string(t.buf)
+	}
 	return string(t.buf)
 }
 
